@@ -44,7 +44,10 @@ def accept_check(text, scratch):
     except subprocess.TimeoutExpired:
         return 'hang: xtool accept did not finish within 120 s'
     if r.returncode != 0:
-        return 'crash: ' + xcase.crash_signature(r.stderr.decode(errors='replace')) + '\n' + r.stderr.decode(errors='replace')[-1500:]
+        err = r.stderr.decode(errors='replace')
+        if 'stack-overflow' in err and not plain_crashes(open(sp, 'rb').read()):
+            return ''    # instrumentation artefact: the production executable handles this input with the default stack
+        return 'crash: ' + xcase.crash_signature(err) + '\n' + err[-1500:]
     o = json.loads(r.stdout.decode())
     names = ['EMIT_BINARY', 'EMIT_TOKENS', 'EMIT_TREE', 'EMIT_OPTIMISED_TREE', 'EMIT_INTERMEDIATE_INSTS', 'EMIT_LOWERED_INSTS', 'EMIT_OPTIMISED_INSTS', 'EMIT_ASM']
     for nm, a in zip(names, o['actions']):
